@@ -105,6 +105,23 @@ impl Buffer {
         &&& self.rows_same_outside(o, row, row + 1)
     }
 
+    /// a fresh buffer: `rows` blank lines of width `cols` in `pen`, nothing above the view
+    pub open spec fn is_fresh(&self, cols: int, rows: int, limit: Option<usize>, pen: Pen) -> bool {
+        &&& self.wf()
+        &&& self.cols == cols
+        &&& self.rows == rows
+        &&& self.len() == rows
+        &&& !self.trim_needed
+        &&& (forall|i: int| 0 <= i < rows ==> (#[trigger] self.lines@[i]).v() == blank_line(cols, pen))
+        &&& (match limit { Some(l) => self.scrollback_limit == Some(ScrollbackLimit { soft: l, hard: (l + l / 10) as usize }), None => self.scrollback_limit is None })
+    }
+
+    /// abstract equality of everything observable (lines, geometry, limit, trim flag)
+    pub open spec fn same_lines(&self, o: Buffer) -> bool {
+        &&& self.len() == o.len()
+        &&& forall|i: int| 0 <= i < o.len() ==> (#[trigger] self.lines@[i]).v() == o.lines@[i].v()
+    }
+
     /// row r of `self` with the unwrap that scroll_up applies to the last row of the range
     pub open spec fn row_pre_su(&self, end: int, r: int) -> LineV {
         if r == end - 1 && end - 1 < self.rows - 1 { unwrapped(self.row(r).v()) } else { self.row(r).v() }
